@@ -9,9 +9,9 @@ Concrete side: `step` / `run` (`LokiModel/C12/Model.lean`), the state machine of
 Abstract side: `specStep` / `specRun` and `dspecStep` / `dspecRun` (`LokiModel/C12/Spec.lean`): every scope is a mapping
 `folded name → Option value`, look-up finds the innermost declaration, `del` / `pop` / `in` agree for any spelling.
 
-The full statement `C12_full` (refinement for **all** histories) is false for the unchanged code
-(`C12_full_false`, four-op witness).  `C12_partial` proves it for every history that stays outside the decidable
-known-finding classes `KnownSt` (state) and, for outputs, additionally `setdefault` (`maskOuts`).
+Since the six `fix:` commits recorded in `known_findings.json` the full statement holds: `C12_full_holds` (every history
+from the empty state refines the specification, every output included) and `C12_dict_full_holds`.  The behaviour before the
+fixes is kept as regression statements in `LokiModel/Findings/C12.lean`.
 -/
 namespace LokiModel.C12
 
@@ -19,87 +19,48 @@ namespace LokiModel.C12
 theorem C12_inv_init : Inv St.init :=
   ⟨fun _ h => by simp [St.init] at h, fun i t h => by simp [St.init] at h⟩
 
-/-- **one step, state**: outside the state-deviating classes the abstraction commutes with the step and the
-invariant of reachable states is kept — for every state satisfying the invariant and every operation -/
-theorem C12_step_state (s : St) (op : Op) (hi : Inv s) (hK : KnownSt s op = false) :
-    abs (step s op).1 = (specStep (abs s) op).1 ∧ Inv (step s op).1 := by
-  simp only [KnownSt, Bool.or_eq_false_iff] at hK
-  obtain ⟨⟨h1, h2⟩, h3⟩ := hK
-  cases op with
-  | new c => exact ⟨(ref_new s c hi).st, (ref_new s c hi).inv⟩
-  | mutate h c => exact ⟨(ref_mutate s h c hi).st, (ref_mutate s h c hi).inv⟩
-  | newtab p => exact ⟨(ref_newtab s p hi).st, (ref_newtab s p hi).inv⟩
-  | newscope p => exact ⟨(ref_newscope s p hi).st, (ref_newscope s p hi).inv⟩
-  | set i k h => exact ⟨(ref_set s i k h hi).st, (ref_set s i k h hi).inv⟩
-  | setdefault i k h => exact ref_setdefault s i k h hi
-  | update i kvs => exact ⟨(ref_update s i kvs hi).st, (ref_update s i kvs hi).inv⟩
-  | get i k => exact ⟨(ref_get s i k hi).st, (ref_get s i k hi).inv⟩
-  | getitem i k => exact ⟨(ref_getitem s i k hi).st, (ref_getitem s i k hi).inv⟩
-  | lookup i k r => exact ⟨(ref_lookup s i k r hi).st, (ref_lookup s i k r hi).inv⟩
-  | contains i k => exact ⟨(ref_contains s i k hi).st, (ref_contains s i k hi).inv⟩
-  | del i k => exact ⟨(ref_del s i k hi h1).st, (ref_del s i k hi h1).inv⟩
-  | pop i k => exact ⟨(ref_pop s i k hi h1).st, (ref_pop s i k hi h1).inv⟩
-  | popd i k => exact ⟨(ref_popd s i k hi h1).st, (ref_popd s i k hi h1).inv⟩
-  | clone i pk => exact ⟨(ref_clone s i pk hi h2).st, (ref_clone s i pk hi h2).inv⟩
-  | setparent i p => exact ⟨(ref_setparent s i p hi).st, (ref_setparent s i p hi).inv⟩
-  | declare i k c f => exact ⟨(ref_declare s i k c f hi).st, (ref_declare s i k c f hi).inv⟩
-  | supdate i k c f => exact ⟨(ref_supdate s i k c f hi).st, (ref_supdate s i k c f hi).inv⟩
-  | gettype i k r f => exact ⟨(ref_gettype s i k r f hi).st, (ref_gettype s i k r f hi).inv⟩
-  | symscope i k => exact ⟨(ref_symscope s i k hi).st, (ref_symscope s i k hi).inv⟩
-  | reparent i p => exact ⟨(ref_reparent s i p hi h3).st, (ref_reparent s i p hi h3).inv⟩
-
-/-- **one step, output**: outside the output-deviating classes the value returned by the real operation (value,
-`None`, `KeyError`, `ValueError`, membership, declaring scope) is the one the specification mapping returns -/
-theorem C12_step_out (s : St) (op : Op) (hi : Inv s) (hK : KnownOut s op = false) :
-    (step s op).2 = (specStep (abs s) op).2 := by
-  simp only [KnownOut, KnownSt, Bool.or_eq_false_iff] at hK
-  obtain ⟨⟨⟨h1, h2⟩, h3⟩, h4⟩ := hK
-  cases op with
-  | new c => exact (ref_new s c hi).out
-  | mutate h c => exact (ref_mutate s h c hi).out
-  | newtab p => exact (ref_newtab s p hi).out
-  | newscope p => exact (ref_newscope s p hi).out
-  | set i k h => exact (ref_set s i k h hi).out
-  | setdefault i k h => simp [KnownSetdefault] at h4
-  | update i kvs => exact (ref_update s i kvs hi).out
-  | get i k => exact (ref_get s i k hi).out
-  | getitem i k => exact (ref_getitem s i k hi).out
-  | lookup i k r => exact (ref_lookup s i k r hi).out
-  | contains i k => exact (ref_contains s i k hi).out
-  | del i k => exact (ref_del s i k hi h1).out
-  | pop i k => exact (ref_pop s i k hi h1).out
-  | popd i k => exact (ref_popd s i k hi h1).out
-  | clone i pk => exact (ref_clone s i pk hi h2).out
-  | setparent i p => exact (ref_setparent s i p hi).out
-  | declare i k c f => exact (ref_declare s i k c f hi).out
-  | supdate i k c f => exact (ref_supdate s i k c f hi).out
-  | gettype i k r f => exact (ref_gettype s i k r f hi).out
-  | symscope i k => exact (ref_symscope s i k hi).out
-  | reparent i p => exact (ref_reparent s i p hi h3).out
+/-- **one step**: for every state satisfying the invariant and every one of the 21 operations, the abstraction commutes
+with the step, the value returned by the real operation (value, `None`, `KeyError`, `ValueError`, membership, declaring
+scope) is the one the specification mapping returns, and the invariant of reachable states is kept -/
+theorem C12_step (s : St) (op : Op) (hi : Inv s) :
+    abs (step s op).1 = (specStep (abs s) op).1 ∧ (step s op).2 = (specStep (abs s) op).2 ∧ Inv (step s op).1 := by
+  have key : Ref s op := by
+    cases op with
+    | new c => exact ref_new s c hi
+    | mutate h c => exact ref_mutate s h c hi
+    | newtab p => exact ref_newtab s p hi
+    | newscope p => exact ref_newscope s p hi
+    | set i k h => exact ref_set s i k h hi
+    | setdefault i k h => exact ref_setdefault s i k h hi
+    | update i kvs => exact ref_update s i kvs hi
+    | get i k => exact ref_get s i k hi
+    | getitem i k => exact ref_getitem s i k hi
+    | lookup i k r => exact ref_lookup s i k r hi
+    | contains i k => exact ref_contains s i k hi
+    | del i k => exact ref_del s i k hi
+    | pop i k => exact ref_pop s i k hi
+    | popd i k => exact ref_popd s i k hi
+    | clone i pk => exact ref_clone s i pk hi
+    | setparent i p => exact ref_setparent s i p hi
+    | declare i k c f => exact ref_declare s i k c f hi
+    | supdate i k c f => exact ref_supdate s i k c f hi
+    | gettype i k r f => exact ref_gettype s i k r f hi
+    | symscope i k => exact ref_symscope s i k hi
+    | reparent i p => exact ref_reparent s i p hi
+  exact ⟨key.st, key.out, key.inv⟩
 
 /-- refinement lifted to histories, from any state satisfying the invariant -/
-theorem C12_run_refines (ops : List Op) : ∀ (s : St), Inv s → KnownFree s ops = true →
-    abs (run s ops).1 = (specRun (abs s) ops).1 ∧
-    maskOuts ops (run s ops).2 = maskOuts ops (specRun (abs s) ops).2 ∧
-    Inv (run s ops).1 := by
+theorem C12_run_refines (ops : List Op) : ∀ (s : St), Inv s →
+    abs (run s ops).1 = (specRun (abs s) ops).1 ∧ (run s ops).2 = (specRun (abs s) ops).2 ∧ Inv (run s ops).1 := by
   induction ops with
-  | nil => intro s hi _; exact ⟨rfl, rfl, hi⟩
+  | nil => intro s hi; exact ⟨rfl, rfl, hi⟩
   | cons op ops ih =>
-    intro s hi hK
-    simp only [KnownFree, Bool.and_eq_true, Bool.not_eq_true'] at hK
-    obtain ⟨hst, hinv⟩ := C12_step_state s op hi hK.1
-    obtain ⟨h1, h2, h3⟩ := ih (step s op).1 hinv hK.2
+    intro s hi
+    obtain ⟨hst, hout, hinv⟩ := C12_step s op hi
+    obtain ⟨h1, h2, h3⟩ := ih (step s op).1 hinv
     simp only [run, specRun]
-    rw [← hst]
-    refine ⟨h1, ?_, h3⟩
-    simp only [maskOuts]
-    rw [h2]
-    congr 1
-    cases hsd : KnownSetdefault op with
-    | true => rfl
-    | false =>
-      simp only [Bool.false_eq_true, if_false]
-      exact C12_step_out s op hi (by simp [KnownOut, hK.1, hsd])
+    rw [← hst, hout, h2]
+    exact ⟨h1, rfl, h3⟩
 
 /-- the full statement of the property on the model: for every history from the empty state, every output equals the
 output of the scoped case-insensitive mapping and the final state abstracts to the mapping's final state -/
@@ -107,34 +68,17 @@ def C12_full : Prop :=
   ∀ ops : List Op, (run St.init ops).2 = (specRun (abs St.init) ops).2 ∧
     abs (run St.init ops).1 = (specRun (abs St.init) ops).1
 
-/-- witness: `t = SymbolTable(); t['abc'] = a; del t['ABC']` raises `KeyError` although `'ABC' in t` -/
-def witnessDel : List Op :=
-  [.newtab none, .new 1, .set 0 ['a', 'b', 'c'] 0, .contains 0 ['A', 'B', 'C'], .del 0 ['A', 'B', 'C']]
+/-- **C12 (full strength)**: every history of operations on nested symbol tables / scopes, with any spellings, behaves as
+the scoped mapping keyed by the case-folded name (no hypothesis; before the `fix:` commits this was false, see
+`Findings/C12.lean`) -/
+theorem C12_full_holds : C12_full := fun ops =>
+  let r := C12_run_refines ops St.init C12_inv_init
+  ⟨r.2.1, r.1⟩
 
-/-- the unchanged code violates the full statement -/
-theorem C12_full_false : ¬ C12_full := by
-  intro h
-  have h1 := (h witnessDel).1
-  revert h1
-  decide
-
-/-- **C12 (partial)**: every history from the empty state that stays outside the state-deviating known-finding classes
-(`del`/`pop` with a spelling other than the stored key of a present entry; `clone()` under an empty parent table;
-`_reset_parent(None)` on a scope whose table has a parent) refines the specification: same final abstract state, and the
-same output for every operation except the return value of `setdefault` (class `symtab-setdefault-returns-none`).
-Missing for the full statement: exactly those classes. -/
-theorem C12_partial (ops : List Op) (hK : KnownFree St.init ops = true) :
-    abs (run St.init ops).1 = (specRun (abs St.init) ops).1 ∧
-    maskOuts ops (run St.init ops).2 = maskOuts ops (specRun (abs St.init) ops).2 :=
-  let r := C12_run_refines ops St.init C12_inv_init hK
-  ⟨r.1, r.2.1⟩
-
-/-- membership, look-up and deletion agree for any spelling (consequence on the specification side, stated on the model):
-in a reachable state, if `del t[k]` is outside the known class then it succeeds exactly when `k in t` -/
-theorem C12_del_agrees_with_contains (s : St) (i : Nat) (k : Name) (hi : Inv s)
-    (hK : KnownDelPop s (.del i k) = false) :
+/-- membership and deletion agree for any spelling: in a reachable state `del t[k]` succeeds exactly when `k in t` -/
+theorem C12_del_agrees_with_contains (s : St) (i : Nat) (k : Name) (hi : Inv s) :
     ((step s (.del i k)).2 = .unit ↔ (step s (.contains i k)).2 = .bool true) := by
-  have h1 := (ref_del s i k hi hK).out
+  have h1 := (ref_del s i k hi).out
   have h2 := (ref_contains s i k hi).out
   rw [h1, h2]
   simp only [specStep]
@@ -142,22 +86,14 @@ theorem C12_del_agrees_with_contains (s : St) (i : Nat) (k : Name) (hi : Inv s)
   | none => simp
   | some t => cases hm : t.map (fold k) <;> simp [hm]
 
-/-- the class `symtab-del-pop-spelling` is tight: inside it `del` really deviates (it raises `KeyError` where the mapping
-deletes the entry) -/
-theorem C12_known_del_deviates (s : St) (i : Nat) (k : Name) (hi : Inv s) (hK : KnownDelPop s (.del i k) = true) :
-    (step s (.del i k)).2 = .keyError ∧ (specStep (abs s) (.del i k)).2 = .unit := by
-  cases ht : s.tabs[i]? with
-  | none => simp [KnownDelPop, ht] at hK
-  | some t =>
-    have hm := hi.1 t (List.mem_of_getElem? ht)
-    simp only [KnownDelPop, ht, Bool.and_eq_true, bne_iff_ne, ne_eq] at hK
-    have hraw : alookup k t.ents = none := by
-      cases h : alookup k t.ents with
-      | none => rfl
-      | some v => exact absurd (hm.1.1 _ (alookup_mem h)).symm hK.1
-    cases hl : alookup (fold k) t.ents with
-    | none => simp [hl] at hK
-    | some v => constructor <;> simp [step, specStep, ht, hraw, hl, dabs]
+/-- only the folded name matters: two spellings of the same name are interchangeable in every keyed operation -/
+theorem C12_spelling_irrelevant (s : St) (i : Nat) (k k' : Name) (h : fold k = fold k') :
+    step s (.get i k) = step s (.get i k') ∧ step s (.getitem i k) = step s (.getitem i k') ∧
+    step s (.contains i k) = step s (.contains i k') ∧ step s (.del i k) = step s (.del i k') ∧
+    step s (.pop i k) = step s (.pop i k') ∧ step s (.popd i k) = step s (.popd i k') ∧
+    (∀ r, step s (.lookup i k r) = step s (.lookup i k' r)) ∧ (∀ hd, step s (.set i k hd) = step s (.set i k' hd)) := by
+  simp only [step, lookup, h]
+  exact ⟨trivial, trivial, trivial, trivial, trivial, trivial, fun _ => trivial, fun _ => trivial⟩
 
 /-- in the by-value model `step`, mutating a handle (`attrs.tag = c`) never changes what any scope maps any name to
 (true by construction of that model; the identity-level statement is `C12_copies_independent` below) -/
@@ -195,72 +131,50 @@ theorem C12_fold_idem (k : Name) : fold (fold k) = fold k := fold_idem k
 
 /-! ## case-insensitive dictionaries -/
 
-/-- one step of `CaseInsensitiveDict` / `CaseInsensitiveDefaultDict` refines the mapping keyed by the lower-cased key,
-outside the known classes -/
-theorem C12_dict_step (kind : DKind) (d : DSt) (op : DOp) (hi : DInv d) (hK : DKnown kind d op = false) :
-    dabs (dstep kind d op).1 = (dspecStep kind (dabs d) op).1 ∧ (dstep kind d op).2 = (dspecStep kind (dabs d) op).2 ∧
-    DInv (dstep kind d op).1 :=
-  let r := dstep_refines kind d op hi hK
-  ⟨r.st, r.out, r.inv⟩
+/-- one step of `CaseInsensitiveDict` / `CaseInsensitiveDefaultDict` refines the mapping keyed by the lower-cased key:
+every state, every operation, no hypothesis -/
+theorem C12_dict_step (kind : DKind) (d : DSt) (op : DOp) :
+    dabs (dstep kind d op).1 = (dspecStep kind (dabs d) op).1 ∧ (dstep kind d op).2 = (dspecStep kind (dabs d) op).2 :=
+  let r := dstep_refines kind d op
+  ⟨r.st, r.out⟩
 
-theorem C12_dict_run (kind : DKind) (ops : List DOp) : ∀ (d : DSt), DInv d → DKnownFree kind d ops = true →
+theorem C12_dict_run (kind : DKind) (ops : List DOp) : ∀ (d : DSt),
     dabs (drun kind d ops).1 = (dspecRun kind (dabs d) ops).1 ∧ (drun kind d ops).2 = (dspecRun kind (dabs d) ops).2 := by
   induction ops with
-  | nil => intro d _ _; exact ⟨rfl, rfl⟩
+  | nil => intro d; exact ⟨rfl, rfl⟩
   | cons op ops ih =>
-    intro d hi hK
-    simp only [DKnownFree, Bool.and_eq_true, Bool.not_eq_true'] at hK
-    obtain ⟨hst, hout, hinv⟩ := C12_dict_step kind d op hi hK.1
-    obtain ⟨h1, h2⟩ := ih (dstep kind d op).1 hinv hK.2
+    intro d
+    obtain ⟨hst, hout⟩ := C12_dict_step kind d op
+    obtain ⟨h1, h2⟩ := ih (dstep kind d op).1
     simp only [drun, dspecRun]
     rw [← hst, hout, h2]
     exact ⟨h1, rfl⟩
 
 def C12_dict_full (kind : DKind) : Prop :=
-  ∀ ops : List DOp, (drun kind [] ops).2 = (dspecRun kind (dabs []) ops).2
+  ∀ ops : List DOp, (drun kind [] ops).2 = (dspecRun kind (dabs []) ops).2 ∧
+    dabs (drun kind [] ops).1 = (dspecRun kind (dabs []) ops).1
 
-/-- `d['Key'] = 1; d.pop('KEY', None)` returns `None` and leaves the entry -/
-theorem C12_dict_full_false_ordered : ¬ C12_dict_full .ordered := by
-  intro h
-  have h1 := h [.set ['K', 'e', 'y'] 1, .popd ['K', 'E', 'Y']]
-  revert h1
-  decide
-
-/-- `d['Key'] = 1; d.setdefault('KEY', 2)` returns 2 and stores a second, unreachable entry -/
-theorem C12_dict_full_false_dflt : ¬ C12_dict_full .dflt := by
-  intro h
-  have h1 := h [.set ['K', 'e', 'y'] 1, .setdefault ['K', 'E', 'Y'] 2]
-  revert h1
-  decide
-
-/-- **dictionaries (partial)**: every history from the empty dictionary outside the known classes refines the mapping -/
-theorem C12_dict_partial (kind : DKind) (ops : List DOp) (hK : DKnownFree kind [] ops = true) :
-    dabs (drun kind [] ops).1 = (dspecRun kind (dabs []) ops).1 ∧ (drun kind [] ops).2 = (dspecRun kind (dabs []) ops).2 :=
-  C12_dict_run kind ops [] (fun _ h => by simp at h) hK
-
-/-- `CaseInsensitiveDict` without `del`/`pop`: no hypothesis at all is needed (the ordered dictionary is a correct
-case-insensitive mapping for `set, get, getitem, in, setdefault, update`) -/
-theorem C12_dict_ordered_nodel (d : DSt) (op : DOp) (hi : DInv d)
-    (hop : match op with | .del _ | .pop _ | .popd _ => False | _ => True) :
-    dabs (dstep .ordered d op).1 = (dspecStep .ordered (dabs d) op).1 ∧
-      (dstep .ordered d op).2 = (dspecStep .ordered (dabs d) op).2 := by
-  have hK : DKnown .ordered d op = false := by
-    cases op <;> simp [DKnown] at hop ⊢
-  exact ⟨(C12_dict_step .ordered d op hi hK).1, (C12_dict_step .ordered d op hi hK).2.1⟩
+/-- **dictionaries (full strength)**: every history on either dictionary behaves as the mapping keyed by the lower-cased key -/
+theorem C12_dict_full_holds (kind : DKind) : C12_dict_full kind := fun ops =>
+  let r := C12_dict_run kind ops []
+  ⟨r.2, r.1⟩
 
 /-! ## non-vacuity -/
 
-/-- a history with mixed spellings, nested scopes, deletion by stored key, clone and re-parenting that satisfies the
-hypothesis of `C12_partial` -/
-example : KnownFree St.init
-    [.newscope none, .newscope (some 0), .new 7, .set 0 ['A', 'b', 'c', '(', '1', ')'] 0, .lookup 1 ['a', 'B', 'C'] true,
-     .mutate 1 9, .declare 1 ['x'] 3 true, .pop 0 ['a', 'b', 'c'], .clone 1 (.some 0), .newscope none, .reparent 1 (some 3),
-     .setdefault 1 ['Y'] none, .symscope 1 ['y', '(', ')']] = true := by decide
+/-- the former witness of the del/pop defect now behaves like the mapping -/
+def witnessDel : List Op :=
+  [.newtab none, .new 1, .set 0 ['a', 'b', 'c'] 0, .contains 0 ['A', 'B', 'C'], .del 0 ['A', 'B', 'C'], .contains 0 ['a', 'b', 'c']]
 
-example : (run St.init witnessDel).2 = [.unit, .unit, .unit, .bool true, .keyError] := by decide
-example : (specRun (abs St.init) witnessDel).2 = [.unit, .unit, .unit, .bool true, .unit] := by decide
-example : KnownFree St.init witnessDel = false := by decide
+example : (run St.init witnessDel).2 = [.unit, .unit, .unit, .bool true, .unit, .bool false] := by decide
+
+example : (run St.init
+    [.newscope none, .newscope (some 0), .new 7, .set 0 ['A', 'b', 'c', '(', '1', ')'] 0, .lookup 1 ['a', 'B', 'C'] true,
+     .mutate 1 9, .declare 1 ['x'] 3 true, .pop 0 ['A', 'B', 'C'], .clone 1 .inherit, .reparent 1 none,
+     .setdefault 1 ['Y'] none, .symscope 1 ['y', '(', ')'], .lookup 1 ['a', 'b', 'c'] true]).2 =
+    [.unit, .unit, .unit, .unit, .val 7, .unit, .unit, .val 7, .unit, .unit, .val 0, .scope 1, .none] := by decide
+
 example : fold ['a', 'B', 'c', '(', '1', ')'] = ['a', 'b', 'c'] := by decide
-example : DKnownFree .dflt [] [.set ['K'] 1, .getitem ['z'], .setdefault ['k'] 2, .pop ['k']] = true := by decide
+example : (drun .dflt [] [.set ['K'] 1, .getitem ['z'], .setdefault ['k'] 2, .pop ['K'], .contains ['k']]).2 =
+    [.unit, .val 0, .val 1, .val 1, .bool false] := by decide
 
 end LokiModel.C12
